@@ -19,6 +19,16 @@ Record gcase := {
   gc_extra : N                      (* observed: runs not attributable to any occurrence + logged errors *)
 }.
 
+(* compact constructors for the generated case files (entity ids: 0 = trigger variable, 1 = unwatched entity,
+   2 = an entity that never exists) *)
+Definition mk_occ (k : okind) (mono wall : Z) (trig last : env) (x y : option N) : occ :=
+  {| o_kind := k; o_mono := mono; o_wall := wall; o_trig := trig; o_last := last;
+     o_cur := [(0%N, x); (1%N, y); (2%N, None)] |}.
+Definition mk_guards (sa : option sexpr) (ta : option (list sspec)) (hold : option Z) (ta_first : bool) : guards :=
+  {| g_sa := sa; g_ta := ta; g_hold := hold; g_ta_first := ta_first |}.
+Definition mk_cron (mi h d mo w : list Z) (ds ws : bool) : window :=
+  WCron {| c_min := mi; c_hour := h; c_dom := d; c_mon := mo; c_dow := w; c_dom_star := ds; c_dow_star := ws |}.
+
 Definition bools_eqb := list_eqb Bool.eqb.
 
 Fixpoint seen_ok (occs : list occ) (exact : list bool) (seen : list (option Z)) : bool :=
@@ -46,15 +56,22 @@ Definition gcase_spec_ok (c : gcase) : bool :=
 
 (* which open findings explain a Spec failure: the Model with the measured switches reproduces the observation, and
    switching the named deviation(s) off makes the Model agree with the Spec on this case *)
+Definition switch_off (cfg : deviations) (ks : list nat) : deviations :=
+  {| d_time_active_per_arg := d_time_active_per_arg cfg && negb (existsb (Nat.eqb 15) ks);
+     d_hold_early_update := d_hold_early_update cfg && negb (existsb (Nat.eqb 70) ks);
+     d_stale_active_vars := d_stale_active_vars cfg && negb (existsb (Nat.eqb 71) ks) |}.
+Definition is_on (cfg : deviations) (k : nat) : bool :=
+  (Nat.eqb k 15 && d_time_active_per_arg cfg) || (Nat.eqb k 70 && d_hold_early_update cfg)
+  || (Nat.eqb k 71 && d_stale_active_vars cfg).
+
 Definition gcase_attrib (cfg : deviations) (c : gcase) : list nat :=
   if negb (gcase_model_ok cfg c) then [] else
   let sp := gcase_spec c in
-  let no15 := {| d_time_active_per_arg := false; d_hold_early_update := d_hold_early_update cfg |} in
-  let no70 := {| d_time_active_per_arg := d_time_active_per_arg cfg; d_hold_early_update := false |} in
-  if d_time_active_per_arg cfg && bools_eqb (gcase_model no15 c) sp then [15%nat]
-  else if d_hold_early_update cfg && bools_eqb (gcase_model no70 c) sp then [70%nat]
-  else if d_time_active_per_arg cfg && d_hold_early_update cfg && bools_eqb (gcase_model cfg_off c) sp then [15%nat; 70%nat]
-  else [].
+  let cands := [[15]; [70]; [71]; [15; 70]; [15; 71]; [70; 71]; [15; 70; 71]]%nat in
+  match filter (fun ks => forallb (is_on cfg) ks && bools_eqb (gcase_model (switch_off cfg ks) c) sp) cands with
+  | ks :: _ => ks
+  | [] => []
+  end.
 
 Definition gcase_explain (cfg : deviations) (c : gcase) :=
   (gcase_model cfg c, gcase_spec c, gc_runs c, gc_extra c,
